@@ -30,6 +30,8 @@ def s_line_spec(eng, result, a, b, x_start, part):
     dx, dy = to_real(b.items[0]) - to_real(a.items[0]), to_real(b.items[1]) - to_real(a.items[1])
     if part == "norm":
         return z3.And(n > 0, n * n == dx * dx + dy * dy)
+    if part == "unit-direction":
+        return (dx / n) * (dx / n) + (dy / n) * (dy / n) == 1
     saved = eng.spec_mode
     eng.spec_mode = 0
     try:
@@ -55,6 +57,7 @@ contracts.append(Contract(
     ensures=[("length-is-euclidean-distance", "line_spec(result, a, b, x_start, 'norm')"),
              ("starts-at-a", "line_spec(result, a, b, x_start, 'start')"),
              ("ends-at-b-after-its-length", "line_spec(result, a, b, x_start, 'end')"),
+             ("direction (b - a) / |b - a| is a unit vector", "line_spec(result, a, b, x_start, 'unit-direction')"),
              ("parametrised-by-arc-length: |fun(x) - fun(y)| == |x - y|", "line_spec(result, a, b, x_start, 'arclength')")]))
 
 
@@ -217,10 +220,158 @@ def install(eng):
         s = 0
         for it in v.items:
             s = e.arith("+", s, e.arith("*", it, it))
-        return X.x_sqrt.fn(e, s)
+        t = X.x_sqrt.fn(e, s)
+        # the argument is a sum of squares, hence >= 0: the SQRT axiom instance holds unconditionally
+        e.assume(z3.And(t >= 0, t * t == to_real(s)))
+        return t
     np["linalg"] = Ext("linalg", {"norm": Ext("norm", norm)})
     np["copy"] = Ext("np.copy", lambda e, v: v)
     eng.used_assumptions.add("cut verification: MeshParametrized.__init__ is verified at two program points (piece-assignment loop, "
                              "three-elements guard) with the state established by Mesh.__init__ as mid-condition (N_t x N_x roots, all leaves, "
                              "space level 0); Mesh.refine_space is replaced by a model justified by refine_axis's frame (closure empty when no "
                              "leaf has a lower space level)")
+
+
+# ------------------------------------------------------------------------------------------
+# PiecewisePolygon.__init__ (cut: everything before the call of the base-class constructor) and PiecewiseParametrization.eval
+
+def select_before_super(stmts):
+    out = []
+    for st in stmts:
+        if isinstance(st, ast.Expr) and isinstance(st.value, ast.Call) and isinstance(st.value.func, ast.Attribute) \
+                and isinstance(st.value.func.value, ast.Call) and getattr(st.value.func.value.func, "id", None) == "super":
+            return out
+        out.append(st)
+    raise OutsideSubset("PiecewisePolygon.__init__: base-class constructor call not found")
+
+
+def sc_polygon(eng):
+    scen = []
+    for nv, closed in ((2, False), (4, True), (5, True), (7, True)):
+        def build(eng, nv=nv, closed=closed):
+            vs = [Vec([z3.Real("vx_%d" % i), z3.Real("vy_%d" % i)]) for i in range(nv - 1 if closed else nv)]
+            if closed:
+                vs.append(vs[0])
+            for p, q in zip(vs, vs[1:]):
+                eng.assume(z3.Or(p.items[0] != q.items[0], p.items[1] != q.items[1]))
+            eng.ghost.update(dict(vs=vs, closed=closed))
+            return {"self": Obj("PiecewisePolygon", {"__module__": PAR}), "vertices": VList(vs), "closed": closed}
+        scen.append(dict(label="vertices={},closed={}".format(nv, closed), args=build))
+    return scen
+
+
+def s_polygon_post(eng, pw_start, pw_gamma, part):
+    g = eng.ghost
+    vs, closed = g["vs"], g["closed"]
+    starts = eng.iter_concrete(pw_start)
+    gammas = eng.iter_concrete(pw_gamma)
+    n = len(vs) - 1
+    if len(starts) != n + 1 or len(gammas) != n:
+        return False
+    saved = eng.spec_mode
+    eng.spec_mode = 0
+    try:
+        if part.startswith("cumulative-side-lengths"):
+            out = [num_cmp("==", starts[0], 0)]
+            only = int(part.split(":")[1])
+            for i in range(n):
+                if i != only:
+                    continue
+                dx, dy = to_real(vs[i + 1].items[0]) - to_real(vs[i].items[0]), to_real(vs[i + 1].items[1]) - to_real(vs[i].items[1])
+                li = to_real(starts[i + 1]) - to_real(starts[i])
+                out += [li > 0, li * li == dx * dx + dy * dy]
+            return b_and(*out)
+        if part == "pieces-map-onto-sides":
+            out = []
+            for i in range(n):
+                p0, p1 = eng.call(gammas[i], [starts[i]]), eng.call(gammas[i], [starts[i + 1]])
+                out += [num_cmp("==", p0.items[k], vs[i].items[k]) for k in range(2)]
+                out += [num_cmp("==", p1.items[k], vs[i + 1].items[k]) for k in range(2)]
+            return b_and(*out)
+        if part == "continuous-and-closed":
+            out = []
+            for i in range(n - 1):
+                p, q = eng.call(gammas[i], [starts[i + 1]]), eng.call(gammas[i + 1], [starts[i + 1]])
+                out += [num_cmp("==", p.items[k], q.items[k]) for k in range(2)]
+            if closed:
+                p, q = eng.call(gammas[-1], [starts[-1]]), eng.call(gammas[0], [starts[0]])
+                out += [num_cmp("==", p.items[k], q.items[k]) for k in range(2)]
+            return b_and(*out)
+    finally:
+        eng.spec_mode = saved
+    raise OutsideSubset(part)
+
+
+polygon_contract = Contract(
+    PAR + ":PiecewisePolygon.__init__", props=["C18"], setup=sc_polygon, body_select=select_before_super,
+    ensures=[("pw_start[{0}+1] - pw_start[{0}] is the length of side {0}".format(i), "polygon_post(pw_start, pw_gamma, 'cumulative-side-lengths:{}')".format(i))
+             for i in range(6)] + [
+             ("piece i maps [pw_start[i], pw_start[i+1]] onto side i (end points)", "polygon_post(pw_start, pw_gamma, 'pieces-map-onto-sides')"),
+             ("continuous at every break point; returns to its start when closed", "polygon_post(pw_start, pw_gamma, 'continuous-and-closed')")])
+
+
+def sc_eval(eng):
+    scen = []
+    for npieces in (1, 2, 4, 6):
+        def build(eng, npieces=npieces):
+            ps = [z3.RealVal(0)] + [z3.Real("ps_%d" % i) for i in range(1, npieces + 1)]
+            for i in range(npieces):
+                eng.assume(ps[i] < ps[i + 1])
+            pieces = [C.piece(eng, "piece_%d" % i) for i in range(npieces)]
+            x = z3.Real("x_hat")
+            # continuity at the break points (established by the constructor, previous contract)
+            for i in range(npieces - 1):
+                eng.assume(z3.And(C.GX(pieces[i].term, ps[i + 1]) == C.GX(pieces[i + 1].term, ps[i + 1]),
+                                  C.GY(pieces[i].term, ps[i + 1]) == C.GY(pieces[i + 1].term, ps[i + 1])))
+            gam = Obj("PiecewiseParametrization", {"__module__": PAR, "pw_start": VList(ps), "pw_gamma": VList(pieces), "gamma_length": ps[-1]})
+            eng.ghost.update(dict(ps=ps, pieces=pieces, x=x))
+            return {"self": gam, "x_hat": x}
+        scen.append(dict(label="pieces=%d" % npieces, args=build))
+    return scen
+
+
+def s_eval_post(eng, result):
+    g = eng.ghost
+    ps, pieces, x = g["ps"], g["pieces"], g["x"]
+    out = []
+    for i, pc in enumerate(pieces):
+        inside = z3.And(ps[i] <= x, x <= ps[i + 1])
+        out.append(z3.Implies(inside, z3.And(to_real(result.items[0]) == C.GX(pc.term, x), to_real(result.items[1]) == C.GY(pc.term, x))))
+    return z3.And(*out)
+
+
+def select_ext(eng, condlist, choicelist, default=0):
+    """X-SELECT: np.select returns, element-wise, the first choice whose condition holds (default 0 otherwise)"""
+    eng.used_assumptions.add("X-SELECT: np.select(condlist, choicelist) returns the first choice whose condition holds")
+    conds = eng.iter_concrete(condlist)
+    choices = eng.iter_concrete(choicelist)
+    res = []
+    for k in range(2):
+        r = z3.RealVal(0)
+        for c, ch in reversed(list(zip(conds, choices))):
+            r = z3.If(to_z3(eng.truth(c)), to_real(ch.items[k]), r)
+        res.append(r)
+    return Vec(res)
+
+
+eval_contract = Contract(
+    PAR + ":PiecewiseParametrization.eval", props=["C18"], setup=sc_eval, precondition_asserts=1,
+    requires=[("parameter inside [0, L]", "And(0 <= x_hat, x_hat <= self.gamma_length)")],
+    ensures=[("evaluating the whole curve agrees with the piece containing the parameter (at break points both pieces agree)", "eval_post(result)")])
+
+
+def install_polygon(eng):
+    eng.spec_funcs["polygon_post"] = s_polygon_post
+    eng.spec_funcs["eval_post"] = lambda e, r: s_eval_post(e, r)
+    np = eng.externals["np"].fn
+    np["all"] = Ext("np.all", lambda e, v: e.truth(v))
+    np["select"] = Ext("np.select", select_ext)
+    cls = type(eng)
+
+    def flatten_attr(e, base, attr):
+        if isinstance(base, Vec) and attr == "flatten":
+            return Ext("flatten", lambda e2, _b=base: _b)
+        return NotImplemented
+    if not getattr(cls, "_flatten_installed", False):
+        cls.getattr_hooks = list(cls.getattr_hooks) + [flatten_attr]
+        cls._flatten_installed = True
